@@ -264,7 +264,14 @@ def direct_cases(ctx, tab):
         # some passes END at the largest line number their 16-bit field can hold (a full-resolution orbit has > 32767 lines;
         # LAC readers accept numbers up to 65534): only the position in the five-line cycle matters, not the magnitude
         r_ = rng.random()
-        if r_ < 0.12 and nums[-1] - nums[0] < 30000:
+        if r_ < 0.06 and len(nums) >= 12 and nums[-1] < 30000:
+            # ... and some SPAN (almost) the whole unsigned range across one gap: first lines near 1, last lines near 65534
+            # (before fix 4cb3134 the cycle position wrapped in 16-bit arithmetic beyond a span of 65530)
+            h_ = len(nums) // 2
+            sh = 65534 - rng.randint(0, 3) - nums[-1]
+            nums = nums[:h_] + [x + sh for x in nums[h_:]]
+            info = dict(info, num_dtype=">u2", gaps=True)
+        elif r_ < 0.12 and nums[-1] - nums[0] < 30000:
             sh = 65534 - rng.randint(0, 3) - nums[-1]
             nums = [x + sh for x in nums]
             info = dict(info, n0=nums[0], num_dtype=">u2")
